@@ -22,11 +22,11 @@ def worker(args):
             r = subprocess.run(["git", "-C", WT, "apply", os.path.abspath(f"seeded/{mid}/patch.diff")], capture_output=True, text=True)
             if r.returncode != 0:
                 out[mid] = {"applies": False}; continue
-            m = subprocess.run(["./bin/mverif", "mech", "all", "--repo", WT], capture_output=True, text=True, env=ENV)
+            m = subprocess.run([os.environ.get("MVERIF_BIN", "./bin/mverif"), "mech", "all", "--repo", WT], capture_output=True, text=True, env=ENV)
             b = subprocess.run("go build ./... && go vet ./...", shell=True, cwd=WT, capture_output=True, text=True, env=ENV)
             sc = f"/tmp/seedmech_scratch{w}"
             os.makedirs(sc, exist_ok=True); shutil.copy("known_findings.json", sc + "/known_findings.json")
-            c = subprocess.run(["./bin/mverif", "check", prop, "--tier", "quick", "--repo", WT, "--verif", sc], capture_output=True, text=True, env=ENV)
+            c = subprocess.run([os.environ.get("MVERIF_BIN", "./bin/mverif"), "check", prop, "--tier", "quick", "--repo", WT, "--verif", sc], capture_output=True, text=True, env=ENV)
             hits = [l.strip() for l in c.stdout.splitlines() if l.startswith("  ") and not l.startswith("      ")][:4]
             out[mid] = {"applies": True, "rewritten_builds": b.returncode == 0, "caught_after_rewrite": c.returncode != 0, "by": hits}
             print(mid, "CAUGHT" if c.returncode != 0 else "MISSED", "" if b.returncode == 0 else "(rewritten tree does not build: " + (b.stdout + b.stderr)[-300:] + ")", flush=True)
